@@ -308,7 +308,10 @@ def run_job(unit, job, cpath, outdir, tier, extra_defines=()):
                         res.raw_fail_output[rec['id']] = steps
     else:
         res.status = 'discharged'
-        if tier == 'thorough' and not job.get('no_second_backend'):
+        first_s = time.time() - t0
+        if tier == 'thorough' and not job.get('no_second_backend') and first_s > 300:
+            res.second_backend = 'skipped (first back end needed %.0f s)' % first_s
+        elif tier == 'thorough' and not job.get('no_second_backend'):
             # second back end: every discharged job is re-checked with the other SAT solver; disagreement = undecided
             alt = [] if solver else ['--sat-solver', 'cadical']
             if solver and solver[:2] == ['--sat-solver', 'cadical']:
